@@ -178,6 +178,9 @@ func (ctx *checkCtx) checkFrame(jr *JobResult, fa *FrameAnalysis, spec *FrameSpe
 		}
 		seenName[name] = true
 		allowed := matchField(spec.Allows, ctx.cs.FieldGroups, x.k.Field)
+		if len(spec.Denies) > 0 && !matchField(spec.Denies, ctx.cs.FieldGroups, x.k.Field) {
+			allowed = true
+		}
 		if strings.HasPrefix(x.k.Field, "global:") && spec.NoGlobals && !allowed {
 			allowed = false
 		}
